@@ -73,7 +73,10 @@ def pool(draw):
     progs = []
     for i in range(n):
         p = draw(S.programs(PROFILE))
-        lines = [it.render(ir.Style(0)) for it in p.items]
+        # registers as xN / ABI alias / plain number, integers in three bases: the same operand TEXT then shows up in different
+        # roles in different programs (state keyed by a spelling would leak between calls)
+        st_ = ir.Style(draw(st.integers(1, 2 ** 30)), kinds={'reg', 'intbase'}) if draw(st.booleans()) else ir.Style(0)
+        lines = [it.render(st_) for it in p.items]
         if draw(st.integers(0, 3)) == 0:
             faults = [f for f in c15.FAULTS if '{far}' not in f[1] and '{label}' not in f[1] and f[0] not in ('noinclude',)]
             lines.insert(draw(st.integers(0, len(lines))), draw(st.sampled_from(faults))[1])
